@@ -3,7 +3,7 @@
     their axiom audit and non-vacuity examples. *)
 From Coq Require Import ZArith List Bool.
 From Low Require Import Lib.Bits Lib.BitSeq Lib.Lex Lib.Bytes Model.Sigbits Spec.SigbitsSpec
-  Proofs.SigbitsShardChecker.
+  Proofs.SigbitsShardChecker Proofs.SigbitsShard.
 Import ListNotations.
 Open Scope Z_scope.
 
@@ -32,4 +32,56 @@ Example C17_checker_nonvacuous :
 Proof.
   split; [reflexivity|]. split; [apply shard_ok_sound; reflexivity|]. split; [reflexivity|].
   intros H. apply shard_ok_complete in H. discriminate H.
+Qed.
+
+(** The property.  For every non-empty, strictly ascending list of byte strings and every
+    maxSize >= 1 -- any number of keys, any key lengths, any byte values -- the model of
+    ShardByPrefix (recursive dfs with the mutable endsAt list, on fuel len(keys)+1) does not
+    panic, does not run out of fuel, and returns (L, B) with
+      len(B) = len(L)+1, B[0] = 0, B[k] = len(keys),
+      B[j] < B[j+1] and B[j+1]-B[j] <= maxSize,
+      L[j] = length of the longest common prefix of keys[B[j]:B[j+1]] (own length for one key),
+      keys[B[j]][:L[j]] < keys[B[j+1]][:L[j+1]] in Go's string order.
+    ([keys_ok]: the list elements are bytes, 0 <= b < 256 -- what a Go string is.
+    Lengths and indices are unbounded [Z] in the model; Go's int32 agrees while
+    8*len(key) < 2^31 and len(keys) < 2^31.) *)
+Theorem C17_ShardByPrefix : forall keys maxSize,
+  keys <> [] -> keys_ok keys -> strict_asc keys -> 1 <= maxSize ->
+  exists L B, ShardByPrefix keys maxSize = Some (L, B) /\ shard_spec keys maxSize L B.
+Proof. exact ShardByPrefix_correct. Qed.
+Print Assumptions C17_ShardByPrefix.
+
+(** the same in the form the correspondence run uses: the extracted checker accepts the
+    model's output (so on the property's domain a SPECFAIL can only come from the implementation) *)
+Theorem C17_ShardByPrefix_accepted : forall keys maxSize,
+  keys <> [] -> keys_ok keys -> strict_asc keys -> 1 <= maxSize ->
+  exists L B, ShardByPrefix keys maxSize = Some (L, B) /\ shard_ok keys maxSize L B = true.
+Proof. exact ShardByPrefix_shard_ok. Qed.
+Print Assumptions C17_ShardByPrefix_accepted.
+
+(** "strictly ascending, hence pairwise distinct": any two shards of an accepted sharding have
+    different prefixes, the earlier one the smaller *)
+Theorem C17_prefixes_distinct : forall keys maxSize L B, shard_spec keys maxSize L B ->
+  forall i j, (i < j < length L)%nat ->
+  bytes_cmp (shard_prefix keys L B i) (shard_prefix keys L B j) = Lt /\
+  shard_prefix keys L B i <> shard_prefix keys L B j.
+Proof. exact shard_spec_prefixes_distinct. Qed.
+Print Assumptions C17_prefixes_distinct.
+
+(** non-vacuity: keys with NUL and >= 0x80 bytes, a key ("a") equal to the common prefix of its
+    successors, a nine-byte shared prefix, maxSize = 2 (forces a split, a restart of the split
+    list and recursion into a single-key range) *)
+Example C17_nonvacuous :
+  let keys := [[0]; [97]; [97; 0]; [97; 98; 99; 100; 101; 102; 103; 104; 105; 1];
+               [97; 98; 99; 100; 101; 102; 103; 104; 105; 128]; [255]] in
+  keys <> [] /\ keys_ok keys /\ strict_asc keys /\ 1 <= 2 /\
+  ShardByPrefix keys 2 = Some ([1; 1; 2; 9; 1], [0; 1; 2; 3; 5; 6]) /\
+  shard_spec keys 2 [1; 1; 2; 9; 1] [0; 1; 2; 3; 5; 6].
+Proof.
+  cbv zeta. split; [discriminate|]. split.
+  { repeat constructor; unfold byte_ok; cbv; intuition congruence. }
+  split.
+  { intros p Hp. cbn in Hp. repeat (destruct Hp as [<-|Hp]; [reflexivity|]). contradiction. }
+  split; [cbv; congruence|]. split; [vm_compute; reflexivity|].
+  apply shard_ok_sound. vm_compute. reflexivity.
 Qed.
